@@ -37,7 +37,7 @@ def ev_class(ev):
         return 'T_' + ev['t'].upper()
     return {'boot': 'BOOT', 'connOk': 'CONN_OK', 'connRefused': 'CONN_FAIL', 'tcpTimeout': 'CONN_FAIL',
             'connLost': 'CONN_LOST', 'tick': 'TICK', 'stop': 'STOP', 'start': 'START', 'rest': 'REST',
-            'data': 'DATA', 'firedue': 'T_DUE'}[k]
+            'data': ev.get('cls', 'DATA'), 'firedue': 'T_DUE'}[k]
 
 
 class Recorder(object):
@@ -86,7 +86,7 @@ class Recorder(object):
             if len(raw) >= b[1]:
                 self.recv.setdefault(c, self.cnt())[b[0]] += 1
 
-    def step(self, ev, real_c, data=None):
+    def step(self, ev, real_c, data=None, extra=None):
         """Apply one event on the real agent (already checked to be possible) and record it."""
         w = self.w
         e = dict(ev)
@@ -121,7 +121,12 @@ class Recorder(object):
             'wS': [self.sent.get(tr, self.cnt())[b] for b, _ in STATKEY] if tr else [],
             'wR': [self.recv.get(tr, self.cnt())[b] for b, _ in STATKEY] if tr else [],
             'rest': self.rest_rec(o['rest']),
+            'fz': '', 'flen': 0, 'probeok': True, 'aspathok': True, 'acc': 0, 'esub': 0,
         }
+        if extra:
+            line.update(extra)
+        if ev['k'] == 'data':
+            line['hex'] = ev['hex']
         self.lines.append(line)
         self.pre = post
         return o
